@@ -18,6 +18,7 @@
 package tsdb
 
 import (
+	"errors"
 	"fmt"
 	"io"
 	"strconv"
@@ -31,6 +32,7 @@ import (
 	"go.uber.org/atomic"
 
 	"github.com/lindb/lindb/config"
+	"github.com/lindb/lindb/constants"
 	"github.com/lindb/lindb/flow"
 	"github.com/lindb/lindb/kv"
 	"github.com/lindb/lindb/metrics"
@@ -401,17 +403,25 @@ func (f *dataFamily) MemDBSize() int64 {
 // if it finds data then returns the FilterResultSet, else returns nil
 func (f *dataFamily) Filter(executeCtx *flow.ShardExecuteContext) (resultSet []flow.FilterResultSet, err error) {
 	f.lastReadTime.Store(fasttime.UnixMilliseconds())
-	memRS, err := f.memoryFilter(executeCtx)
-	if err != nil {
-		return nil, err
+	// a source(memory database/files) which does not hold the fields or the series of the query contributes nothing,
+	// it must not hide the data of the other sources.
+	memRS, memErr := f.memoryFilter(executeCtx)
+	if memErr != nil && !errors.Is(memErr, constants.ErrNotFound) {
+		return nil, memErr
 	}
-	fileRS, err := f.fileFilter(executeCtx)
-	if err != nil {
-		return nil, err
+	fileRS, fileErr := f.fileFilter(executeCtx)
+	if fileErr != nil && !errors.Is(fileErr, constants.ErrNotFound) {
+		return nil, fileErr
 	}
 	resultSet = append(resultSet, memRS...)
 	resultSet = append(resultSet, fileRS...)
-	return
+	if len(resultSet) == 0 {
+		if memErr != nil {
+			return nil, memErr
+		}
+		return nil, fileErr
+	}
+	return resultSet, nil
 }
 
 // GetState returns the current state include memory database state.
@@ -461,9 +471,14 @@ func (f *dataFamily) GetState() models.DataFamilyState {
 }
 
 func (f *dataFamily) memoryFilter(shardExecuteContext *flow.ShardExecuteContext) (resultSet []flow.FilterResultSet, err error) {
+	var notFound error
 	memFilter := func(memDB memdb.MemoryDatabase) error {
 		rs, err := memDB.Filter(shardExecuteContext)
 		if err != nil {
+			if errors.Is(err, constants.ErrNotFound) {
+				notFound = err
+				return nil
+			}
 			return err
 		}
 		resultSet = append(resultSet, rs...)
@@ -480,6 +495,9 @@ func (f *dataFamily) memoryFilter(shardExecuteContext *flow.ShardExecuteContext)
 		if err := memFilter(f.immutableMemDB); err != nil {
 			return nil, err
 		}
+	}
+	if len(resultSet) == 0 && notFound != nil {
+		return nil, notFound
 	}
 	return
 }
